@@ -22,21 +22,43 @@ theorem toNat_ofNat_small (m : Nat) (h : m < 0xD800) : (Char.ofNat m).toNat = m 
   have hv : m.isValidChar := Or.inl h
   simp [Char.ofNat, hv, Char.toNat, Char.ofNatAux]
 
-/-- lower-casing a lower-cased character changes nothing -/
-theorem lowerChar_idem (c : Char) : lowerChar (lowerChar c) = lowerChar c := by
+/-- the code points `lowerChar` moves -/
+def IsCapital (n : Nat) : Prop :=
+  (0x41 ≤ n ∧ n ≤ 0x5A) ∨ (0xC0 ≤ n ∧ n ≤ 0xDE ∧ n ≠ 0xD7) ∨ (0x410 ≤ n ∧ n ≤ 0x42F) ∨ (0x400 ≤ n ∧ n ≤ 0x40F) ∨
+  n = 0x212A ∨ n = 0x212B ∨ n = 0x2126 ∨ n = 0x1E9E ∨ n = 0x23A ∨ n = 0x23E
+
+theorem lowerChar_of_not_capital (c : Char) (h : ¬ IsCapital c.toNat) : lowerChar c = c := by
+  unfold IsCapital at h
   unfold lowerChar
   simp only
+  rw [if_neg (by omega), if_neg (by omega), if_neg (by omega), if_neg (by omega), if_neg (by omega),
+    if_neg (by omega), if_neg (by omega), if_neg (by omega)]
+
+/-- no image of `lowerChar` is a capital -/
+theorem not_capital_lowerChar (c : Char) : ¬ IsCapital (lowerChar c).toNat := by
+  unfold lowerChar IsCapital
+  simp only
   split
-  · next h =>
-    have hn : c.toNat + 32 < 0xD800 := by omega
-    rw [toNat_ofNat_small _ hn]
-    rw [if_neg (by omega), if_neg (by omega)]
+  · rw [toNat_ofNat_small _ (by omega)]; omega
   · split
-    · next h1 h =>
-      have hn : c.toNat + 80 < 0xD800 := by omega
-      rw [toNat_ofNat_small _ hn]
-      rw [if_neg (by omega), if_neg (by omega)]
-    · rfl
+    · rw [toNat_ofNat_small _ (by omega)]; omega
+    · split
+      · rw [toNat_ofNat_small _ (by omega)]; omega
+      · split
+        · rw [toNat_ofNat_small _ (by omega)]; omega
+        · split
+          · rw [toNat_ofNat_small _ (by omega)]; omega
+          · split
+            · rw [toNat_ofNat_small _ (by omega)]; omega
+            · split
+              · rw [toNat_ofNat_small _ (by omega)]; omega
+              · split
+                · rw [toNat_ofNat_small _ (by omega)]; omega
+                · omega
+
+/-- lower-casing a lower-cased character changes nothing -/
+theorem lowerChar_idem (c : Char) : lowerChar (lowerChar c) = lowerChar c :=
+  lowerChar_of_not_capital _ (not_capital_lowerChar c)
 
 theorem lowerStr_idem (s : String) : lowerStr (lowerStr s) = lowerStr s := by
   unfold lowerStr
